@@ -1,6 +1,6 @@
 (* Correspondence for C10: the harness built a set of GatewayClass / Gateway / HTTPRoute /
    TCPRoute / Namespace / Service / Endpoints objects, ran the real gateway converter over the
-   real cache facade, and recorded the resulting host paths (PathLink hash -> backend id),
+   real cache facade, and ran one sync per enabled API version and recorded the resulting host paths (PathLink hash -> backend id),
    backends (id -> servers ip, port, weight) and TCP services (port -> backend id).
    Maps are compared as sets, servers as multisets. *)
 From Coq Require Export ZArith NArith List String Bool.
@@ -11,10 +11,14 @@ Open Scope string_scope.
 Definition of_codes (l : list N) : string :=
   fold_right (fun n s => String (Ascii.ascii_of_N n) s) EmptyString l.
 
-Record gcase := { gid : N; gcl : cluster;
+(* gcls: the objects read by each enabled API version, in sync order *)
+Record gcase := { gid : N; gcls : list cluster;
                   o_paths : list (string * string);
                   o_backs : list (string * list endpoint);
-                  o_tcp : list (Z * string) }.
+                  o_tcp : list (Z * string);
+                  o_modetcp : list string;
+                  o_pass : list string;
+                  o_hpb : list (string * string) }.
 
 Section Perm.
   Context {A : Type} (eqb : A -> A -> bool).
@@ -39,10 +43,14 @@ Definition back_eqb (a b : string * list endpoint) : bool :=
 Definition tcp_eqb (a b : Z * string) : bool := Z.eqb (fst a) (fst b) && String.eqb (snd a) (snd b).
 
 Definition gcase_ok (c : gcase) : bool :=
-  let st := attach_impl (gcl c) in
+  let x := attach_versions (gcls c) in
+  let st := x_core x in
   perm_eqb pair_eqb (st_paths st) (o_paths c)
   && perm_eqb back_eqb (st_backs st) (o_backs c)
-  && perm_eqb tcp_eqb (st_tcp st) (o_tcp c).
+  && perm_eqb tcp_eqb (st_tcp st) (o_tcp c)
+  && perm_eqb String.eqb (x_modetcp x) (o_modetcp c)
+  && perm_eqb String.eqb (x_pass x) (o_pass c)
+  && perm_eqb pair_eqb (x_hpb x) (o_hpb c).
 
 Definition mismatches (cs : list gcase) : list N :=
   map gid (filter (fun c => negb (gcase_ok c)) cs).
